@@ -3,14 +3,14 @@
 #   <id> <property> applies-on=<HEAD|base|no> check-rc=<0|1|2> <n> violation-groups  OK|REGRESSION
 # A patch that no longer applies to HEAD (or whose meta says manifests_on_head=false) is evaluated on the commit it
 # was made against (meta.json "base"), where the check may additionally report findings that were repaired later.
-# Expected result: rc=1, except for changes whose meta.caught_by_check starts with "no" or "thorough" (rc=0 expected at the quick tier).
+# Expected result: meta "regress_rc" if present, else rc=1, except for changes whose meta.caught_by_check starts with "no" or "thorough" (rc=0 expected at the quick tier).
 export GOFLAGS=-mod=mod GOPROXY=off GOSUMDB=off GOTOOLCHAIN=local
 for d in /verif/seeded/${1:-*}/; do
   id=$(basename $d)
   prop=$(python3 -c "import json;print(json.load(open('$d/meta.json'))['property'])")
   base=$(python3 -c "import json;print(json.load(open('$d/meta.json')).get('base',''))")
   onhead=$(python3 -c "import json;print(json.load(open('$d/meta.json')).get('manifests_on_head',True))")
-  want=$(python3 -c "import json;c=json.load(open('$d/meta.json'))['caught_by_check'];print(2 if 'exit 2' in c else 0 if (c.startswith('no') or c.startswith('thorough')) else 1)")
+  want=$(python3 -c "import json;m=json.load(open('$d/meta.json'));c=m['caught_by_check'];print(m.get('regress_rc', 2 if 'exit 2' in c else 0 if (c.startswith('no') or c.startswith('thorough')) else 1))")
   W=/var/tmp/seedreg.$$.$id; O=$W.out
   where=HEAD
   applied=no
